@@ -887,12 +887,12 @@ class Interp:
             except IndexError:
                 raise PyRaise("IndexError", "index out of range", node)
         if isinstance(o, dict):
-            try:
-                return o[k]
-            except KeyError:
+            c = self.dict_find(o, k)
+            if c is _MISSING:
+                if hasattr(o, "__missing__"):
+                    return o[k]
                 raise PyRaise("KeyError", repr(k), node)
-            except TypeError:
-                raise OutOfSubset("symbolic key into concrete dict")
+            return o[c]
         if hasattr(o, "__pyvc_getitem__"):
             return o.__pyvc_getitem__(self, k, node)
         if isinstance(o, Obj):
@@ -901,8 +901,36 @@ class Interp:
                 return self.call(BoundMethod(f, o), [k], {})
         raise OutOfSubset(f"subscript of {type(o).__name__}")
 
+    def dict_find(self, d, k):
+        """The key of the concrete dict `d` that equals `k` on this path, or _MISSING.  Keys with symbolic parts are compared by
+        value, not by object identity: an undecided equality forks the path (two generic rules may produce the same key)."""
+        if not _symbolic_key(k) and not any(_symbolic_key(c) for c in d):
+            try:
+                return k if k in d else _MISSING
+            except TypeError:
+                raise OutOfSubset("unhashable key into concrete dict")
+        for c in list(d):
+            if c is k:
+                return c
+            r = self.equals(k, c)
+            if r is True:
+                return c
+            if r is False:
+                continue
+            e = z3.simplify(r.e)
+            if z3.is_true(e):
+                return c
+            if z3.is_false(e):
+                continue
+            if self.path.decide(e):
+                return c
+        return _MISSING
+
     def setitem(self, o, k, v):
-        if isinstance(o, (list, dict)):
+        if isinstance(o, dict):
+            c = self.dict_find(o, k)
+            o[k if c is _MISSING else c] = v
+        elif isinstance(o, list):
             o[k] = v
         elif hasattr(o, "__pyvc_setitem__"):
             o.__pyvc_setitem__(self, k, v)
@@ -1249,7 +1277,7 @@ class Interp:
         if hasattr(container, "__pyvc_contains__"):
             return container.__pyvc_contains__(self, x)
         if isinstance(container, (list, tuple, set, frozenset, dict, str)):
-            if isinstance(x, (Z, XR)) or any(isinstance(c, (Z, XR)) for c in container):
+            if _symbolic_key(x) or any(_symbolic_key(c) for c in container):
                 cs = []
                 for c in container:
                     r = self.equals(x, c)
@@ -1266,6 +1294,17 @@ class Interp:
             if f is not None:
                 return self.call(BoundMethod(f, container), [x], {})
         raise OutOfSubset(f"membership in {type(container).__name__}")
+
+
+_MISSING = object()
+
+
+def _symbolic_key(k):
+    if isinstance(k, (Z, XR)):
+        return True
+    if isinstance(k, (tuple, frozenset)):
+        return any(_symbolic_key(c) for c in k)
+    return False
 
 
 class _Gen:
@@ -1304,11 +1343,16 @@ class NativeMethod:
 
     def call(self, interp, args, kwargs):
         o, name = self.o, self.name
-        if isinstance(o, dict) and name == "get":
-            try:
-                return o.get(args[0], args[1] if len(args) > 1 else None)
-            except TypeError:
-                raise OutOfSubset("symbolic key into concrete dict")
+        if isinstance(o, dict) and name in ("get", "pop", "setdefault"):
+            c = interp.dict_find(o, args[0])
+            if c is _MISSING:
+                if name == "setdefault":
+                    o[args[0]] = args[1] if len(args) > 1 else None
+                    return o[args[0]]
+                if name == "pop" and len(args) < 2:
+                    raise PyRaise("KeyError", repr(args[0]))
+                return args[1] if len(args) > 1 else None
+            return o.pop(c) if name == "pop" else o[c]
         if isinstance(o, dict) and name == "items":
             return list(o.items())
         if name in ("append", "add", "extend", "update", "pop", "keys", "values", "copy", "clear", "remove", "discard",
